@@ -811,6 +811,45 @@ impl<'a> Engine<'a> {
                     }
                 }
             }
+            // (e) a repeated group split by another group (the last element moved behind the following / to the front): either
+            //     rejected as a duplicate of that tag, or every element is still there - never a silent loss
+            // (only on the shipped types: in generated definitions a moved element can land in front of a rest-of-scope field
+            // or change the reading of an E1-ambiguous neighbour, where "another value" is legitimate)
+            for gi in (0..n).filter(|_| def.key.contains("::")) {
+                let mut info: Option<(u16, usize)> = None;
+                if let Some(b) = apply(&mut |s: &mut StructNode| {
+                    if s.groups[gi].repeated && s.groups[gi].elems.len() >= 2 && s.groups.len() >= 2 {
+                        let tag = s.groups[gi].tag;
+                        let last = s.groups[gi].elems.pop().unwrap();
+                        let moved = Group { field: s.groups[gi].field.clone(), tag, mandatory: false, repeated: true, elems: vec![last] };
+                        let at = if gi + 1 < s.groups.len() { gi + 2 } else { 0 };
+                        s.groups.insert(at.min(s.groups.len()), moved);
+                        info = Some((tag, at));
+                    }
+                }) {
+                    if let Some((tag, _)) = info {
+                        r.case(fnv(&b) ^ fnv(def.key.as_bytes()) ^ 0x5b117, true);
+                        r.count("split_runs_of_repeated_groups", 1);
+                        if nr.weak {
+                            continue;
+                        }
+                        match sut.decode(&def.key, &b) {
+                            Outcome::Err(e) if e.contains("DuplicateTag") => {}
+                            Outcome::Err(_) => {}
+                            Outcome::Panic(p) => r.violation(&format!("{prop_name} {}: split run of a repeated field {}", def.key, crate::evidence::strip_numbers(&p)), &p, json!({"type": def.key, "bytes": hex(&b), "split_tag": format!("{tag:x}")})),
+                            Outcome::Ok { .. } => {
+                                if sut.decode_eq(&def.key, &b, v) == Some(false) {
+                                    r.violation(
+                                        &format!("{prop_name} {}: a repeated field whose elements arrive in two separate runs loses elements silently", def.key),
+                                        &format!("tag {tag:x} occurs in two runs separated by another field; the packet is accepted but the decoded value is not the one with all elements"),
+                                        json!({"type": def.key, "bytes": hex(&b), "split_tag": format!("{tag:x}"), "value": val_to_json(v)}),
+                                    );
+                                }
+                            }
+                        }
+                    }
+                }
+            }
             // (d) a foreign tag at every group position
             for pos in 0..=n {
                 for _ in 0..2 {
@@ -865,6 +904,12 @@ impl<'a> Engine<'a> {
             for _ in 0..4 {
                 let n = 1 + rng.below(64) as usize;
                 suffixes.push(rng.bytes(n));
+            }
+            // a few hundred bytes (more than any one field holds): digits-as-text, and random
+            if rng.chance(1, 3) {
+                suffixes.push(vec![0xf1; 400]);
+                suffixes.push((0..1200).map(|i| 0xf0 | (i % 10) as u8).collect());
+                suffixes.push(rng.bytes(500));
             }
             // suffixes that take the whole input to and just beyond 64 KiB (sizes are not taken modulo anything), for a
             // sample of the base values
@@ -951,6 +996,10 @@ impl<'a> Engine<'a> {
                     // more of the same payload (more digits, more text)
                     let more = if p.is_empty() { vec![0x31, 0x32] } else { p[..p.len().min(4)].to_vec() };
                     junk.push(vec![Node { field: "more".into(), tag: vec![], len: Len::None, apdu: false, payload: Payload::Leaf(more), prefix_override: None }]);
+                    // a lot more (several times the element's own length), in the element's own alphabet
+                    let unit = if p.is_empty() { vec![0xf1] } else { p[..p.len().min(8)].to_vec() };
+                    let lots: Vec<u8> = unit.iter().cycle().take(10 * p.len().max(12)).cloned().collect();
+                    junk.push(vec![Node { field: "lots".into(), tag: vec![], len: Len::None, apdu: false, payload: Payload::Leaf(lots), prefix_override: None }]);
                 }
                 // every attractive continuation once more behind one to three zero bytes ("filler" in some TLV dialects)
                 let with_filler: Vec<Vec<Node>> = junk
